@@ -42,8 +42,14 @@ Definition end_of_nat (n : nat) : end_mode :=
 
 Definition case := (option nstr * option nstr * list nstr * list nstr * nat * obs)%type.
 
+(* 3: the LangChain callback path (on_llm_new_token per chunk, on_llm_end), text-completion style;
+   4: the same for a chat model: on_chat_model_start first and an empty first token before the chunks *)
 Definition run_c (p s : option nstr) (stops chunks : list nstr) (e : nat) : state N :=
-  run N.eqb (mkConfig p s stops) chunks (end_of_nat e).
+  match e with
+  | 3 => run_tokens N.eqb (mkConfig p s stops) false chunks
+  | 4 => run_tokens N.eqb (mkConfig p s stops) true ([] :: chunks)
+  | _ => run N.eqb (mkConfig p s stops) chunks (end_of_nat e)
+  end.
 
 Definition run_old_c (p s : option nstr) (stops chunks : list nstr) (e : nat) : state N :=
   run_old N.eqb (mkConfig p s stops) chunks (end_of_nat e).
